@@ -15,7 +15,7 @@
    Group names are arbitrary (may contain '-', blanks, upper case, anything); metric keys must not
    contain '-' and must be distinct: `keys_ok`, established for panoptica's key universe in
    Proofs/GenEq_StatParse.v and checked by the harness on every header it sees. *)
-From Pan Require Import Base.Common Base.Sx Model.Stats Model.Tsv Proofs.StatsFacts Proofs.StatsC20 Proofs.TsvFacts.
+From Pan Require Import Base.Common Base.Sx Model.Stats Model.Tsv Proofs.StatsFacts Proofs.StatsC20 Proofs.TsvFacts Proofs.PrefixReading.
 Open Scope Z_scope.
 
 (* the loader's split (at the LAST '-') inverts the header's join whenever the key has no '-' ... *)
@@ -128,3 +128,20 @@ Example C18_nonvacuous :
   | Err _ => false
   end = true.
 Proof. split; [exact toy_codec_ok|]. vm_compute. split; reflexivity. Qed.
+
+(* ---- a group's cells cannot be recognised by the prefix "<group>-": a group whose name extends another's by "-..." owns cells
+   beginning with that prefix, and the remainder read as a metric name contains a '-' (no key does); the split at the last '-'
+   reads the same cell correctly.  Holds for every pair of such names; witness: organ / organ-left / sq *)
+Theorem C18_prefix_reading_misreads_extended_groups : forall g rest m,
+  strip_prefix (g ++ [DASH]) (join (g ++ DASH :: rest) m) = Some (join rest m) /\ In DASH (join rest m).
+Proof. exact prefix_reading_of_extended_group. Qed.
+
+Theorem C18_last_dash_reading_of_extended_groups : forall g rest m, ~ In DASH m ->
+  split_cell (join (g ++ DASH :: rest) m) = Ok (g ++ DASH :: rest, m).
+Proof. exact last_dash_reading_of_extended_group. Qed.
+
+Example C18_prefix_reading_refuted :
+  let organ := [111; 114; 103; 97; 110] in let left := [108; 101; 102; 116] in let sq := [115; 113] in
+  strip_prefix (organ ++ [DASH]) (join (organ ++ DASH :: left) sq) = Some (left ++ DASH :: sq) /\
+  split_cell (join (organ ++ DASH :: left) sq) = Ok (organ ++ DASH :: left, sq).
+Proof. exact prefix_reading_refuted. Qed.
